@@ -25,6 +25,7 @@ import (
 	"go/types"
 	"math/big"
 	"sort"
+	"strconv"
 	"strings"
 
 	"golang.org/x/tools/go/packages"
@@ -124,7 +125,7 @@ var kernelList = []kernelSpec{
 // already passed through PrepareBetObject (model: wager_prepare, tied by the correspondence runs)
 var assumeOK = []kernelSpec{{"x/mint/types", "", "validateMintDenom"}, {"x/bet/types", "MsgWager", "ValidateBasic"}}
 
-var extraStructs = []kernelSpec{{"x/ovm/types", "ProposalVotePayload", ""}, {"x/ovm/types", "MsgVotePubkeysChangeRequest", ""}, {"x/bet/types", "Constraints", ""}, {"x/ovm/types", "PubkeysChangeProposalPayload", ""}, {"x/mint/types", "Phase", ""}, {"x/ovm/types", "Vote", ""}, {"x/market/types", "Odds", ""}, {"x/bet/types", "BetFulfillment", ""}}
+var extraStructs = []kernelSpec{{"x/ovm/types", "ProposalVotePayload", ""}, {"x/ovm/types", "MsgVotePubkeysChangeRequest", ""}, {"x/bet/types", "Constraints", ""}, {"x/ovm/types", "PubkeysChangeProposalPayload", ""}, {"x/mint/types", "Phase", ""}, {"x/ovm/types", "Vote", ""}, {"x/market/types", "Odds", ""}, {"x/bet/types", "BetFulfillment", ""}, {"x/bet/types", "UID2ID", ""}}
 
 // A stateful kernel: a function that reads and writes module state through a keeper.  The state it touches is a record (emitted as
 // S_<name>) and every keeper / context method it may call is mapped to an operation on that record; anything else fails the translation.
@@ -148,6 +149,7 @@ type statefulSpec struct {
 	returns    string             // "" | "value": the function returns a value besides (or instead of) an error; the translation pairs it with the state
 	ctxOps     map[string]stateOp // sdk.Context method -> operation
 	outParam   string             // a pointer parameter the function assigns through: its final value is returned next to the state
+	idParams   []string           // string parameters that are identifiers (kept, as integers); every other string parameter is free text
 	addrParams bool               // sdk.AccAddress parameters are kept (as account ids) instead of being matched by name
 }
 
@@ -209,6 +211,19 @@ var voteOps = map[string]stateOp{
 	"SetPubkeysChangeProposal":     {kind: "upsert", field: []string{"Active", "Id"}},
 }
 
+var bsetOps = map[string]stateOp{
+	"GetBetID":                       {kind: "find", field: []string{"Uid2ID", "Uid2IDFound"}, args: []string{"betUID"}},
+	"GetBet":                         {kind: "find", field: []string{"Bet", "BetFound"}, args: []string{"uid2ID.ID"}},
+	"marketKeeper.GetMarket":         {kind: "find", field: []string{"Market", "MarketFound"}, args: []string{"bet.MarketUID"}},
+	"orderbookKeeper.RefundBettor":   {kind: "callerr", field: []string{"K_settle_RefundBettor"}, args: []string{"Ob"}},
+	"orderbookKeeper.WithdrawBetFee": {kind: "callerr", field: []string{"K_settle_WithdrawBetFee"}, args: []string{"Ob"}},
+	"settleResolved":                 {kind: "callerr", field: []string{"K_settle_settleResolved"}, args: []string{"Ob", "bet"}},
+	"updateSettlementState":          {kind: "callst", field: []string{"K_bset_updateSettlementState"}},
+	"SetBet":                         {kind: "setarg", field: []string{"Bet", "0"}},
+	"RemovePendingBet":               {kind: "removez", field: []string{"Pending"}},
+	"SetSettledBet":                  {kind: "appendpair", field: []string{"SettledIx"}},
+}
+
 var statefulList = []statefulSpec{{
 	// the market a wager is placed on: found, active, not past its end time (a read-only function: the result is the market or an error)
 	recv: "Keeper", pkg: "x/bet/keeper", name: "getMarket", state: "betmkt", keeperPkg: "x/bet/keeper", ctxTime: "Now", returns: "value",
@@ -232,10 +247,23 @@ var statefulList = []statefulSpec{{
 }, {
 	recv: "Keeper", pkg: "x/orderbook/keeper", name: "BettorLoses", state: "settle", keeperPkg: "x/orderbook/keeper", ops: settleOps,
 }, {
+	recv: "Keeper", pkg: "x/orderbook/keeper", name: "WithdrawBetFee", state: "settle", keeperPkg: "x/orderbook/keeper", ops: settleOps, addrParams: true,
+}, {
 	// x/bet/keeper/settle.go: the side of a resolved bet decides which of the two is called
 	recv: "Keeper", pkg: "x/bet/keeper", name: "settleResolved", state: "settle", keeperPkg: "x/bet/keeper", outParam: "bet",
 	ops: map[string]stateOp{"orderbookKeeper.BettorLoses": {kind: "callerr", field: []string{"K_settle_BettorLoses"}},
 		"orderbookKeeper.BettorWins": {kind: "callerr", field: []string{"K_settle_BettorWins"}}},
+}, {
+	// x/bet/keeper/settle.go Settle: one bet, from its uid to the payments, the participation updates and the bet / pending / settled records.
+	// The state: the order-book side (effects + participations), the uid index entry and the bet and market stored under the keys the
+	// function asks for, the pending bets of the market, the settled index additions, the block height
+	recv: "Keeper", pkg: "x/bet/keeper", name: "updateSettlementState", state: "bset", keeperPkg: "x/bet/keeper", ops: bsetOps,
+	ctxOps: map[string]stateOp{"BlockHeight": {kind: "get", field: []string{"Height"}}},
+	fields: []stateField{{"Ob", "S_settle"}, {"Uid2ID", "G_UID2ID"}, {"Uid2IDFound", "bool"}, {"Bet", "G_Bet"}, {"BetFound", "bool"},
+		{"Market", "G_Market"}, {"MarketFound", "bool"}, {"Height", "Z"}, {"Pending", "list Z"}, {"SettledIx", "list (Z * Z)"}},
+}, {
+	recv: "Keeper", pkg: "x/bet/keeper", name: "Settle", state: "bset", keeperPkg: "x/bet/keeper", ops: bsetOps, idParams: []string{"bettorAddressStr", "betUID"},
+	ctxOps: map[string]stateOp{"BlockHeight": {kind: "get", field: []string{"Height"}}},
 }, {
 	recv: "Keeper", pkg: "x/subaccount/keeper", name: "TopUp", state: "subtop", keeperPkg: "x/subaccount/keeper", ops: subtopOps, ctxTime: "Now",
 	fields: []stateField{{"Exists", "bool"}, {"Summary", "G_AccountSummary"}, {"SummaryExists", "bool"}, {"Locks", "list G_LockedBalance"},
@@ -462,6 +490,14 @@ func (c *fctx) stateOpOf(f *ast.SelectorExpr) (stateOp, bool) {
 	return stateOp{}, false
 }
 
+// callerrPat: what a successful call of another stateful kernel binds: the state, and the out variable if the callee has one
+func callerrPat(op stateOp) string {
+	if len(op.args) > 1 && op.args[1] != "" {
+		return fmt.Sprintf("(g_st, %s)", ident(op.args[1]))
+	}
+	return "g_st"
+}
+
 // withErr: translate a continuation knowing that the error variable `name` is nil (isNil) or non-nil; earlier knowledge about the same
 // variable (it is reused for several calls in a row) is suspended meanwhile and restored afterwards
 func (c *fctx) withErr(name string, isNil bool, f func() string) string {
@@ -482,7 +518,11 @@ func (c *fctx) withErr(name string, isNil bool, f func() string) string {
 func (c *fctx) stateArgs(op stateOp, call *ast.CallExpr) []string {
 	var args []string
 	var names []string
-	for _, a := range call.Args {
+	callArgs := call.Args
+	if op.kind == "appendpair" && len(callArgs) > 2 {
+		callArgs = callArgs[len(callArgs)-2:]
+	}
+	for _, a := range callArgs {
 		if isCtx(c.info.TypeOf(a)) {
 			continue
 		}
@@ -706,6 +746,21 @@ func (c *fctx) applyStateOp(op stateOp, args []string, rest string) string {
 		return fmt.Sprintf("let g_st := set_%s_%s g_st (filter (fun g__x => negb (%s_%s g__x =? %s)) (%s_%s g_st)) in\n  %s", S, op.field[0], el, op.field[1], args[len(args)-1], S, op.field[0], rest)
 	case "append":
 		return fmt.Sprintf("let g_st := set_%s_%s g_st (%s_%s g_st ++ [%s]) in\n  %s", S, op.field[0], S, op.field[0], args[len(args)-1], rest)
+	case "setarg": // field := the argument at the given position (SetBet(ctx, bet, id): the record, not its key)
+		k, _ := strconv.Atoi(op.field[1])
+		if k >= len(args) {
+			return c.fail("setarg: no argument %d", k)
+		}
+		return fmt.Sprintf("let g_st := set_%s_%s g_st %s in\n  %s", S, op.field[0], args[k], rest)
+	case "appendpair": // the last two arguments, as a pair, appended to a list field
+		if len(args) < 2 {
+			return c.fail("appendpair with %d arguments", len(args))
+		}
+		return fmt.Sprintf("let g_st := set_%s_%s g_st (%s_%s g_st ++ [(%s, %s)]) in\n  %s", S, op.field[0], S, op.field[0], args[len(args)-2], args[len(args)-1], rest)
+	case "removez": // a list of integers without the last argument
+		return fmt.Sprintf("let g_st := set_%s_%s g_st (filter (fun g__x => negb (g__x =? %s)) (%s_%s g_st)) in\n  %s", S, op.field[0], args[len(args)-1], S, op.field[0], rest)
+	case "callst": // another stateful kernel that returns nothing
+		return fmt.Sprintf("let g_st := %s g_st %s in\n  %s", op.field[0], strings.Join(args, " "), rest)
 	}
 	return c.fail("state operation %s used as a statement", op.kind)
 }
@@ -1066,6 +1121,29 @@ func (c *fctx) call(e *ast.CallExpr) string {
 				return fmt.Sprintf("(existsb (fun g__x => %s_%s g__x =? %s) (S_%s_%s g_st))", el, op.field[1], c.expr(e.Args[len(e.Args)-1]), c.state.state, op.field[0])
 			}
 			if op.kind == "callerr" {
+				// args[0]: the callee works on this sub-record of the state; args[1]: the callee also returns the final value of a
+				// pointer parameter (the caller's variable of that name)
+				sub, out := "", ""
+				if len(op.args) > 0 {
+					sub = op.args[0]
+				}
+				if len(op.args) > 1 {
+					out = op.args[1]
+				}
+				S := "S_" + c.state.state
+				switch {
+				case sub == "" && out == "":
+					return fmt.Sprintf("(%s g_st %s)", op.field[0], strings.Join(c.plainArgs(e), " "))
+				case sub != "" && out == "":
+					return fmt.Sprintf("(match %s (%s_%s g_st) %s with Some g__o => Some (set_%s_%s g_st g__o) | None => None end)",
+						op.field[0], S, sub, strings.Join(c.plainArgs(e), " "), S, sub)
+				case sub != "" && out != "":
+					return fmt.Sprintf("(match %s (%s_%s g_st) %s with Some (g__o, g__v) => Some (set_%s_%s g_st g__o, g__v) | None => None end)",
+						op.field[0], S, sub, strings.Join(c.plainArgs(e), " "), S, sub)
+				}
+				return fmt.Sprintf("(%s g_st %s)", op.field[0], strings.Join(c.plainArgs(e), " "))
+			}
+			if op.kind == "callst" {
 				return fmt.Sprintf("(%s g_st %s)", op.field[0], strings.Join(c.plainArgs(e), " "))
 			}
 			if op.kind == "call" {
@@ -1233,6 +1311,16 @@ func isNilIdent(e ast.Expr) bool {
 }
 
 func (c *fctx) ret(s *ast.ReturnStmt) string {
+	if c.state != nil && c.results == "err" && len(s.Results) == 1 {
+		// return k.refund(...): the payment is emitted (it cannot fail here, see emitOp) and the function ends
+		if call, ok := s.Results[0].(*ast.CallExpr); ok {
+			if f, ok := call.Fun.(*ast.SelectorExpr); ok {
+				if op, ok := c.stateOpOf(f); ok && op.kind == "emitpay" {
+					return c.emitOp(op, call, "Some "+c.retState())
+				}
+			}
+		}
+	}
 	if c.state != nil {
 		switch c.results {
 		case "val":
@@ -1619,7 +1707,7 @@ func (c *fctx) stmts(list []ast.Stmt) string {
 									}
 									// another stateful kernel that returns an error: the new state or the error branch
 									if op, ok := c.stateOpOf(f); ok && op.kind == "callerr" {
-										return fmt.Sprintf("match %s with\n  | Some g_st => %s\n  | None => %s\n  end", c.expr(call), rest(), thenB)
+										return fmt.Sprintf("match %s with\n  | Some %s => %s\n  | None => %s\n  end", c.expr(call), callerrPat(op), rest(), thenB)
 									}
 									// a method that assigns to its receiver (a local variable): the translation returns the new value or None
 									if fn, ok := c.info.Uses[f.Sel].(*types.Func); ok && c.k.mutFn[fn] {
@@ -1895,7 +1983,7 @@ func (c *fctx) stmts(list []ast.Stmt) string {
 							callS := c.expr(call)
 							errB := c.withErr(id.Name, false, rest)
 							okB := c.withErr(id.Name, true, rest)
-							return fmt.Sprintf("match %s with\n  | Some g_st => %s\n  | None => %s\n  end", callS, okB, errB)
+							return fmt.Sprintf("match %s with\n  | Some %s => %s\n  | None => %s\n  end", callS, callerrPat(op), okB, errB)
 						}
 					}
 				}
@@ -2370,6 +2458,14 @@ func analyseKernels(w *world) string {
 				continue
 			}
 			if isString(pv.Type()) {
+				keep := false
+				for _, n := range sp.idParams {
+					keep = keep || n == pv.Name()
+				}
+				if keep {
+					params = append(params, fmt.Sprintf("(%s : Z)", ident(pv.Name())))
+					continue
+				}
 				if c.dropVars == nil {
 					c.dropVars = map[string]bool{}
 				}
